@@ -15,7 +15,7 @@ structure DocEntry where
   names : List Str
   seq : Str
   attrs : Nat     -- 0: no attributes; 1: dataset/created/modified/version and the sequence's attributes;
-                  -- 2: as 1 but `version="x"` (well-formed XML, invalid against the Uniprot schema)
+                  -- ≥ 2: as 1 but `version="x"` (well-formed XML, invalid against the Uniprot schema)
   extra : Bool    -- protein and organism children (the organism has `name` children of its own)
   filler : Nat    -- after the entry: 0 newline; 1 a copyright element; 2 a comment; 3 nothing;
                   -- 4 a copyright element whose text holds the entity `&amp;`
@@ -134,7 +134,8 @@ def docTrace (d : Doc) : Trace :=
      d.entries.flatMap (fun e => .entry e.toEntry :: fillerEvs e.filler) ++
      [.other] ++ (if d.trailingNl then [.other] else []), .eof⟩
 
-def Doc.valid (d : Doc) : Bool := d.entries.all (fun e => e.attrs != 2)
+/-- valid against the schema: no entry carries the non-numeric `version` (`attrs ≥ 2`) -/
+def Doc.valid (d : Doc) : Bool := d.entries.all (fun e => decide (e.attrs ≤ 1))
 
 /-! ### damage -/
 
@@ -178,7 +179,9 @@ def isEndTagName (t : Str) (p : Nat) : Bool :=
 
 /-- position `p` holds the quote that opens an attribute value (`="`) -/
 def isOpeningQuote (t : Str) (p : Nat) : Bool :=
-  1 ≤ p && t[p]? == some '"' && t[p - 1]? == some '='
+  let back := (t.take p).reverse.takeWhile (fun c => c != '<')     -- the text since the last `<`
+  1 ≤ p && t[p]? == some '"' && t[p - 1]? == some '=' &&
+    back.length < p && !back.contains '>' && back.count '"' % 2 == 0   -- inside a tag, not inside a value
 
 /-- position `p` lies in an entity `&name;` (on a letter of the name or on the `;`) and putting the letter `c`
 there leaves no predefined entity: the `;` is gone, or the name is no longer one of the five -/
@@ -194,6 +197,19 @@ def breaksEntity (t : Str) (p : Nat) (c : Char) : Bool :=
       !(entityNames.contains (left.reverse ++ c :: right))
   | none => false
 
+/-- position `p` lies inside a quoted attribute value of a tag (the reader does not look at attribute values;
+Entry / SequenceType unmarshalling types some of them) -/
+def inAttrValue (t : Str) (p : Nat) : Bool :=
+  let back := (t.take p).reverse.takeWhile (fun c => c != '<')     -- the text since the last `<`, nearest first
+  back.length < p && !back.contains '>' && back.count '"' % 2 == 1
+
+/-- number of leading characters of `t` that fit completely into the first `n` bytes of its UTF-8 encoding -/
+def charsWithin : Nat → Str → Nat
+  | _, [] => 0
+  | n, c :: r => if c.utf8Size ≤ n then 1 + charsWithin (n - c.utf8Size) r else 0
+
+def isAscii (t : Str) : Bool := t.all (fun c => c.toNat < 128)
+
 def classify (d : Doc) (r : Rendered) (dm : Damage) : DClass :=
   let valid := d.valid
   match dm with
@@ -202,7 +218,7 @@ def classify (d : Doc) (r : Rendered) (dm : Damage) : DClass :=
     else
       -- an entry whose `version` attribute is not a number: DecodeElement must fail there; the entries before
       -- it are intact (`p` = end of the last valid entry before the first invalid one)
-      let firstBad := (d.entries.takeWhile (fun e => e.attrs != 2)).length
+      let firstBad := (d.entries.takeWhile (fun e => decide (e.attrs ≤ 1))).length
       .damagedAt ((r.entryEnds.take firstBad).getLast?.getD (r.rootStart + 1))
   | .trunc n =>
     if n ≥ r.rootEnd then (if valid then .wellformed else .unknown)
@@ -220,7 +236,8 @@ def classify (d : Doc) (r : Rendered) (dm : Damage) : DClass :=
     else .unknown
   | .hset p b =>
     -- a lone byte ≥ 0x80 between ASCII bytes is invalid UTF-8 wherever it stands inside the root element
-    if b ≥ 128 && b < 256 && r.rootStart ≤ p && p < r.rootEnd && d.entries.all (fun e => e.filler != 2) then .damagedAt p
+    -- (byte offset = character offset: ASCII documents only)
+    if b ≥ 128 && b < 256 && r.rootStart ≤ p && p < r.rootEnd && d.entries.all (fun e => e.filler != 2) && isAscii r.text then .damagedAt p
     else .unknown
   | .gz _ _ => .unknown   -- decided from what the harness's own gzip reader reports
 
